@@ -382,6 +382,9 @@ func (se *SessionExecutor) bindStmtArgs(s *Stmt, nullBitmap, paramTypes, paramVa
 
 			n = int(paramValues[pos])
 			pos++
+			if len(paramValues) < (pos + n) {
+				return mysql.ErrMalformPacket
+			}
 			tVal, err := mysql.FormatBinaryDate(n, paramValues[pos:pos+n])
 			pos += n
 			if err != nil {
@@ -397,6 +400,9 @@ func (se *SessionExecutor) bindStmtArgs(s *Stmt, nullBitmap, paramTypes, paramVa
 
 			n = int(paramValues[pos])
 			pos++
+			if len(paramValues) < (pos + n) {
+				return mysql.ErrMalformPacket
+			}
 			tVal, err := mysql.FormatBinaryTime(n, paramValues[pos:pos+n])
 			pos += n
 			if err != nil {
@@ -412,6 +418,9 @@ func (se *SessionExecutor) bindStmtArgs(s *Stmt, nullBitmap, paramTypes, paramVa
 
 			n := int(paramValues[pos])
 			pos++
+			if len(paramValues) < (pos + n) {
+				return mysql.ErrMalformPacket
+			}
 			tVal, err := mysql.FormatBinaryDateTime(n, paramValues[pos:pos+n])
 			pos += n
 			if err != nil {
